@@ -384,7 +384,8 @@ class DimensionalityEstimator(BaseEstimator):
     def _compute_loss_func(self):
         distances = self.distances
         transform = self.transform
-        k = self.initial_value.shape[0]
+        # dimension of the latent array (both rows: dimensionality and density)
+        k = self.initial_value.size
         loss_func = compute_dimensionality_loss_func(distances, transform, k)
         return loss_func
 
